@@ -555,6 +555,13 @@ func (e *Enc) makeInterface(x *ssa.MakeInterface) {
 		if len(sorts) == 1 {
 			e.declareFun(unbox, []string{SInt}, sorts[0])
 			ax += fmt.Sprintf(" (= (%s %s) x0)", smtSym(unbox), appl)
+		} else {
+			// multi-word values (slices, structs): one projection per leaf
+			for i, so := range sorts {
+				un := fmt.Sprintf("%s#%d", unbox, i)
+				e.declareFun(un, []string{SInt}, so)
+				ax += fmt.Sprintf(" (= (%s %s) x%d)", smtSym(un), appl, i)
+			}
 		}
 		if len(sorts) > 0 {
 			e.axiom(fmt.Sprintf("(forall (%s) (! (and %s) :pattern (%s)))", strings.Join(vars, " "), ax, appl))
@@ -586,6 +593,8 @@ func (e *Enc) typeAssert(x *ssa.TypeAssert) {
 		if len(sorts) == 1 {
 			e.declareFun(unbox, []string{SInt}, sorts[0])
 			val = Sc{app(sorts[0], smtSym(unbox), iv)}
+		} else if len(sorts) > 1 {
+			val = e.unboxMulti(unbox, at, sorts, iv)
 		} else {
 			val = e.freshValueNoRange("unboxed", at)
 		}
@@ -791,4 +800,16 @@ func (e *Enc) sentinelConst(g *ssa.Global) (Term, bool) {
 		return t, true
 	}
 	return Term{smtSym(name), SInt}, true
+}
+
+// unboxMulti rebuilds a multi-word value of type t from the per-leaf projections of interface value iv.
+func (e *Enc) unboxMulti(unbox string, t types.Type, sorts []string, iv Term) Value {
+	var leaves []Term
+	for i, so := range sorts {
+		un := fmt.Sprintf("%s#%d", unbox, i)
+		e.declareFun(un, []string{SInt}, so)
+		leaves = append(leaves, app(so, smtSym(un), iv))
+	}
+	v, _ := unflatten(t, leaves)
+	return v
 }
